@@ -93,8 +93,15 @@ class C05(Prop):
                 if r < 0.3:
                     m = rng.choice(cc.MALFORMED + NASTY[:8] + NASTY[10:])
                 else:
-                    v = cc.gen_valid_payload(rng) if r < 0.6 else [cc.gen_valid_payload(rng) for _ in range(rng.randrange(0, 3))] if r < 0.8 \
-                        else jv.gen_value(rng, 3)
+                    if r < 0.42:      # any mix of member values, or a well-formed message with another version member
+                        v = cc.gen_payload(rng)
+                        if rng.random() < 0.5:
+                            v = cc.gen_valid_payload(rng)
+                            if isinstance(v, dict):
+                                v['jsonrpc'] = rng.choice(cc.MEMBER_VALUES['jsonrpc'])
+                    else:
+                        v = cc.gen_valid_payload(rng) if r < 0.6 else [cc.gen_valid_payload(rng) for _ in range(rng.randrange(0, 3))] if r < 0.8 \
+                            else jv.gen_value(rng, 3)
                     try:
                         b = bytearray(json.dumps(v).encode())
                     except ValueError:
